@@ -25,7 +25,8 @@ RULE = (
     "compared with a reference state kept by the harness from its own os.walk/os.stat/read: same "
     "reference state <=> same hash, where the state is (member, size, mtime) for File/Dir/FileSet, "
     "(member, bytes) for the Content* classes and constant for the immutable classes; (4) hashing a "
-    "missing path does not raise and gives the same hash twice. Non-trivial = a redun-side "
+    "missing path (absent, or below a path component that is a regular file) does not raise and gives "
+    "the same hash twice. Non-trivial = a redun-side "
     "write/copy/stage/mkdir applied to an object whose hash had already been computed."
 )
 ASSUMPTIONS = [
@@ -74,6 +75,7 @@ file_ops = st.one_of(common_ops + [
     T("rremove", idx), T("rtouch", idx),
     T("fwrite", idx, C, M), T("fwrite", idx, C, M), T("fappend", idx, C, M),
     T("ftrunc", idx, st.integers(0, 3), M), T("fremove", idx), T("ftouch", idx, M), T("fsame", idx),
+    T("fblock", idx),
 ])
 drel = st.sampled_from(DIR_RELS)
 dir_ops = st.one_of(common_ops + [
@@ -422,6 +424,40 @@ class World:
         if ok and (loc.path != want or loc.hash != fh):
             self.defect("stale-hash:File.stagenew", f"{self.K}: staged copy {loc.path} has hash {loc.hash[:8]}, "
                         f"fresh {fh[:8]} (expected path {want})")
+
+    def op_fblock(self, i):
+        """The path goes missing because its parent directory is replaced by a regular file
+        (stat then fails with ENOTDIR, not ENOENT): hashing and validating must not raise, and give
+        the hash of a missing path. The blocking file is removed again before the op ends."""
+        rel = FILE_PATHS[i]
+        parent = os.path.dirname(rel)
+        self.tree.rmtree(parent)
+        blocker = self.tree.p(parent)
+        with open(blocker, "wb") as f:
+            f.write(b"x")
+        self.labels.add("missing-path-parent-is-a-file")
+        got = []
+        try:
+            for what, fn in (("fresh hash", lambda: self.make(i).hash), ("fresh hash", lambda: self.make(i).hash),
+                             ("is_valid", lambda: self.objs[i].is_valid())):
+                try:
+                    got.append(fn())
+                except (Violation, StopCheck, HarnessError):
+                    raise
+                except Exception as e:  # noqa: BLE001
+                    if redun_frame(e) is None:
+                        raise
+                    self.defect(f"missing-path-raises:{self.K}:parent-is-a-file",
+                                f"{what} of {self.K} at a path whose parent is a regular file raised "
+                                f"{type(e).__name__}: {str(e)[:200]} (a missing path must hash deterministically)")
+                    return
+        finally:
+            os.remove(blocker)
+        ok, plain = self.fresh(i, "fblock")
+        if ok and not (got[0] == got[1] == plain):
+            self.defect(f"nondeterministic-missing:{self.K}:parent-is-a-file",
+                        f"{self.K} at a path below a regular file hashed to {got[0][:8]}, {got[1][:8]}; the plainly "
+                        f"missing path hashes to {plain[:8]}")
 
     def op_rremove(self, i):
         self.guard("File.remove", None, self.objs[i].remove)
